@@ -64,7 +64,7 @@ class Gen:
             a, ob, e = s.find_fn(name)
         return s.s[a:e], s.line_of(ob)
 
-    def fn(self, f, name, ann=None, impl=None, qual=None, rewrites=(), props=()):
+    def fn(self, f, name, ann=None, impl=None, qual=None, rewrites=(), props=(), own=None):
         """copy function `name`, apply the exact-text rewrites, annotate.  qual: Verus-side name."""
         text, line = self._fn_text(f, name, impl)
         orig = text
@@ -81,7 +81,7 @@ class Gen:
         if vname in self.stub or name in self.stub:
             out = stub_fn(out)
         self.units.append({'fn': vname, 'file': 'src/%s.rs' % f, 'line': line, 'sha256': sha(orig), 'fingerprint': fp,
-                           'props': list(props), 'stubbed': (vname in self.stub or name in self.stub),
+                           'props': list(props), 'own': list(props if own is None else own), 'stubbed': (vname in self.stub or name in self.stub),
                            'has_contract': bool(ann.get('requires') or ann.get('ensures'))})
         return out
 
